@@ -96,6 +96,9 @@ func main() {
 			}
 			r := &rw{p: p, f: f, st: &st}
 			r.file()
+			if p.PkgPath == coap+"/message/pool" {
+				injectPoison(f)
+			}
 			if *variant == "c12" && p.PkgPath == coap+"/message/pool" {
 				injectTracker(f)
 			}
@@ -430,6 +433,26 @@ func (r *rw) selectStmt(s *ast.SelectStmt) ast.Stmt {
 }
 
 var _ = sort.Strings
+
+// injectPoison (all variants): Pool.ReleaseMessage starts with verifPoison(req)
+// (hooks/std/message/pool/zz_verif_poison.go).
+func injectPoison(f *ast.File) {
+	for _, d := range f.Decls {
+		fd, ok := d.(*ast.FuncDecl)
+		if !ok || fd.Body == nil || fd.Recv == nil || len(fd.Recv.List) != 1 || fd.Name.Name != "ReleaseMessage" {
+			continue
+		}
+		st, ok := fd.Recv.List[0].Type.(*ast.StarExpr)
+		if !ok {
+			continue
+		}
+		if id, ok := st.X.(*ast.Ident); !ok || id.Name != "Pool" {
+			continue
+		}
+		mName := fd.Type.Params.List[0].Names[0].Name
+		fd.Body.List = append([]ast.Stmt{&ast.ExprStmt{X: &ast.CallExpr{Fun: ast.NewIdent("verifPoison"), Args: []ast.Expr{ast.NewIdent(mName)}}}}, fd.Body.List...)
+	}
+}
 
 // injectTracker (variant c12): every function of message/pool with a *Message receiver or
 // parameter starts with verifLive(x, name); Pool.AcquireMessage / ReleaseMessage are diverted
